@@ -349,6 +349,20 @@ theorem jail_keeps (s : St) (a : Addr) : Keeps s (jail s a) := by
       · intro w; simpa using nonneg_get w.nonneg hcur
       · rw [hcur]; simp [wtOpt, wt, bonded]
 
+theorem unjail_keeps (s : St) (a : Addr) : Keeps s (unjail s a) := by
+  unfold unjail
+  cases hcur : get s.apps a with
+  | none => exact Keeps.refl s
+  | some app =>
+    simp only
+    split
+    · refine Keeps.of_put a { app with jailed := false } 0 ?_ ?_ ?_ ?_
+      · simp
+      · simp
+      · intro w; simpa using nonneg_get w.nonneg hcur
+      · rw [hcur]; simp [wtOpt, wt, bonded]
+    · exact Keeps.refl s
+
 /-! ## All operations -/
 
 theorem donate_spec (s : St) (src : Addr) (amt : Int) :
@@ -365,6 +379,7 @@ theorem step_keeps (s : St) (op : Op) (h : ∀ src amt, op ≠ .donate src amt) 
   | endBlock => exact endBlock_keeps s
   | force a => exact forceUnstake_keeps s a
   | jail a => exact jail_keeps s a
+  | unjail a => exact unjail_keeps s a
   | ext e => exact Keeps.of_same rfl rfl
   | donate src amt => exact absurd rfl (h src amt)
 
@@ -399,6 +414,9 @@ theorem step_excess (s : St) (op : Op) (w : WF s) :
     exact ⟨k.wf w, by rw [k.ex w]; simp [donated]⟩
   | jail a =>
     have k := step_keeps s (.jail a) (by intro _ _ h; cases h)
+    exact ⟨k.wf w, by rw [k.ex w]; simp [donated]⟩
+  | unjail a =>
+    have k := step_keeps s (.unjail a) (by intro _ _ h; cases h)
     exact ⟨k.wf w, by rw [k.ex w]; simp [donated]⟩
   | ext e =>
     have k := step_keeps s (.ext e) (by intro _ _ h; cases h)
